@@ -26,6 +26,8 @@ func storesTo(fn *ssa.Function, fieldID string) []*ssa.Store {
 func checkC03(c *Ctx) {
 	// the embedded signature identifies its signer and verifies: the emitter rules of C05
 	checkC05(c)
+	// the embedded digest is the specification digest of the output file: the hash-coverage rules of C01
+	checkC01(c)
 	// re-parsing the output verifies against no certificate that did not sign it: the
 	// image verifier accepts only behind the signer-identity and signature facts (as in C02)
 	if vf := c.Fn("A", "authenticode.(*PECOFFBinary).Verify"); vf != nil {
